@@ -208,6 +208,30 @@ type Obs struct {
 	PeerSteps   string `json:"peerSteps,omitempty"`
 	Sess        Sess   `json:"sess"`  // resumed mode: the session as established on the wire
 	Skip        string `json:"skip,omitempty"`
+	// Exercised: the switches the peer actually got to use (a select-phase switch is
+	// never reached when the server side waives authentication, ...)
+	Exercised []string `json:"exercised"`
+}
+
+var phaseOf = map[string]string{"SelectUnofferedBit": "select", "SelectSeveralBits": "select", "SelectZero": "select",
+	"PostAuthInClear": "post", "PostAuthDenied": "post"}
+
+func exercised(devs []string, p *peer.Peer) []string {
+	out := []string{}
+	for _, d := range devs {
+		switch phaseOf[d] {
+		case "select":
+			if p.Cfg.Role == peer.Server && len(p.Obs.Selected) == 0 || p.Cfg.Role == peer.Client && len(p.Obs.Offered) == 0 {
+				continue
+			}
+		case "post":
+			if !contains(p.Obs.Steps, "SendPostAuth") {
+				continue
+			}
+		}
+		out = append(out, d)
+	}
+	return out
 }
 
 var canarySerial int64
@@ -226,7 +250,7 @@ type runResult struct {
 // makes the real endpoint write one application message.
 func handshake(c Cfg, sc *security.SecurityConfig, pc peer.Config) runResult {
 	ea, pa := addrs(c.Role)
-	ec, pconn := wire.NewPipe(ea, pa)
+	ec, pconn := wire.C03NewPipe(ea, pa)
 	p := peer.New(pconn, pc)
 	canary := []byte(fmt.Sprintf("CANARY-%d-c03-verif", atomic.AddInt64(&canarySerial, 1)))
 	res := runResult{p: p}
@@ -271,7 +295,8 @@ func classOf(cl string) string {
 	return "sealed"
 }
 
-func (o *Obs) fill(c Cfg, r runResult, resumed bool) {
+func (o *Obs) fill(c Cfg, devs []string, r runResult, resumed bool) {
+	o.Exercised = exercised(devs, r.p)
 	o.TimedOut = r.tout
 	if r.p.Obs.Err != nil {
 		o.PeerErr = r.p.Obs.FailedStep + ": " + r.p.Obs.Err.Error()
@@ -316,7 +341,7 @@ func Run(g *Group) Obs {
 			cache = nil
 		}
 		r := handshake(c, c.realConfig(cache), c.peerConfig(g.Devs, false))
-		o.fill(c, r, false)
+		o.fill(c, g.Devs, r, false)
 		if c.Role == "server" && r.neg != nil {
 			security.InvalidateSession(r.neg.SessionId) // keep the process-wide cache small
 		}
@@ -357,7 +382,7 @@ func Run(g *Group) Obs {
 		o.Skip = "the endpoint did not take the resumption path"
 		return o
 	}
-	o.fill(c, r, true)
+	o.fill(c, g.Devs, r, true)
 	if c.Role == "server" {
 		security.InvalidateSession(sid)
 	}
@@ -429,9 +454,16 @@ func matches(f Final, o Obs) bool {
 
 // Check compares an observation with the terminal states the specification allows.
 // machinery != "" reports a problem of the model / harness (never a violation).
-func Check(g *Group, o Obs) (d *Diff, machinery string) {
+func Check(g *Group, o Obs, lookup func(Cfg, []string) *Group) (d *Diff, machinery string) {
 	if o.Skip != "" {
 		return nil, ""
+	}
+	if lookup != nil && len(o.Exercised) != len(g.Devs) {
+		// the behaviour that really took place is the one in which the peer did not
+		// (get to) use some of its switches
+		if eff := lookup(g.Cfg, o.Exercised); eff != nil {
+			g = eff
+		}
 	}
 	if !o.Outcome.Ok {
 		for _, f := range g.Allowed {
